@@ -57,14 +57,22 @@ Qed.
 Print Assumptions C05_fallback_is_safe.
 
 (* writeAttachments over an abstract file system (set of existing paths, O_EXCL create), for any
-   number of attachments with arbitrary names, any directory, any token, any initial contents:
-   either it fails, and then no output file was written and the file system is exactly as before
-   (all reservations released), or all output paths are pairwise distinct and each lies directly
-   inside the directory. *)
-Theorem C05_collision_before_write : forall fs d names tok fs' written ok,
-  writeAttachments fs d names tok = (fs', written, ok) ->
-  (ok = false -> written = [] /\ fs' = fs) /\
-  (ok = true -> written = attachmentOutputPaths d names /\ NoDup written /\ Forall (insideDir d) written).
+   number of attachments with arbitrary names, any directory, any token, any initial contents, and
+   ANY predicate failsOther telling for which reservation markers the O_EXCL create fails with an
+   error other than EEXIST (name too long, permission, ...):
+   - if the reservation phase ends with ANY error (status 1 = collision / marker exists,
+     status 2 = other error), no output file was written and the file system is exactly as
+     before (all earlier reservations rolled back);
+   - otherwise (status 0) every marker could be created, all output paths are pairwise distinct
+     and each lies directly inside the directory;
+   - a failing marker is never skipped: status 2 is reported whenever the loop reaches one. *)
+Theorem C05_collision_before_write : forall failsOther fs d names tok fs' written st,
+  writeAttachments failsOther fs d names tok = (fs', written, st) ->
+  (st <> 0 -> written = [] /\ fs' = fs) /\
+  (st = 0 -> written = attachmentOutputPaths d names /\ NoDup written /\ Forall (insideDir d) written
+             /\ Forall (fun p => failsOther (attachmentReservationPath p tok) = false) written) /\
+  (st = 0 \/ st = 1 \/ st = 2) /\
+  (st = 2 -> exists p, In p (attachmentOutputPaths d names) /\ failsOther (attachmentReservationPath p tok) = true).
 Proof. exact collision_before_write. Qed.
 Print Assumptions C05_collision_before_write.
 
@@ -79,8 +87,11 @@ Example C05_nonvacuous :
   (* invalid UTF-8 0xFF becomes U+FFFD *)
   /\ Path [0xFF] = Ok [0xEF;0xBF;0xBD]
   (* "a/b" and "a_b" collide: nothing written, file system untouched; "a","b" succeed *)
-  /\ writeAttachments [[0x2F;0x6F;0x2F;0x6B]] [0x2F;0x6F] [[0x61;0x2F;0x62]; [0x61;0x5F;0x62]] [0x74]
-     = ([[0x2F;0x6F;0x2F;0x6B]], [], false)
-  /\ snd (writeAttachments [] [0x2F;0x6F] [[0x61]; [0x62]] [0x74]) = true
+  /\ writeAttachments nameTooLong [[0x2F;0x6F;0x2F;0x6B]] [0x2F;0x6F] [[0x61;0x2F;0x62]; [0x61;0x5F;0x62]] [0x74]
+     = ([[0x2F;0x6F;0x2F;0x6B]], [], 1)
+  /\ snd (writeAttachments nameTooLong [] [0x2F;0x6F] [[0x61]; [0x62]] [0x74]) = 0
+  (* a 240-byte name: the output name fits NAME_MAX, its marker does not: status 2, nothing written *)
+  /\ writeAttachments nameTooLong [] [0x2F;0x6F] [[0x62]; repeat 0x61 240; repeat 0x61 240] [0x74] = ([], [], 2)
+  /\ nameTooLong (0x2F :: repeat 0x61 255) = false /\ nameTooLong (0x2F :: repeat 0x61 256) = true
   /\ join2 [0x2F;0x6F;0x2F;0x2E;0x2E;0x2F;0x70] [0x61] = [0x2F;0x70;0x2F;0x61].
 Proof. vm_compute. repeat split; reflexivity. Qed.
